@@ -1,4 +1,24 @@
-"""C02  Keyword index answers Eq/Any/All and negations exactly, after any history."""
+"""C02  Keyword index answers Eq/Any/All and negations exactly, after any history.
+
+Generator modes (measured, quick tier, seed 0, 8000 cases): small 84%, bulk-hot 12%, bulk-wide 4%; the largest
+posting reached 65-120 docids in 7%, 121-300 in 5%, > 300 in 0.1% of the cases (7.5% of all cases reach >= 65
+docids under the class default tree_threshold, i.e. without an instance attribute); > 30 distinct keywords in 4%;
+> 120 withdrawn documents in 1.3%; keyword kinds str 25%, int 15%, num 15%, tuple 15%, bytes 10%, wide 10%,
+widestr 10%.
+
+Size- / value- / entry-point-dependent mutations tried on scratch copies (VERIF_REPO=/var/tmp/mut_strong1_<N>,
+deleted afterwards), all VIOLATION with a shrunk replay, quick tier, seed 0:
+  M3  unindex_doc skips postings with more than 100 docids ("cleaned up lazily")
+  M4  normalize() truncates float keywords to int (1.5 and 1 become one keyword; needs the num pool)
+  M6  BaseIndexMixin.docids drops not_indexed once more than 150 documents are indexed
+  M7  search(.., 'and') returns the smallest set without intersecting when it has more than 80 docids
+  M10 apply({'query': [..]}) defaults to operator 'or'
+  M12 docids() cached on (indexed_count, not_indexed_count)
+and the seeded changes C02_B (demotion to Set on unindex keeps working on the detached TreeSet; needs a posting
+that was promoted) and C02_F (applyEq hands the bare keyword to apply(): a tuple / bytes keyword is taken as a list).
+"""
+import importlib
+
 from lib.core import exc_name, idset
 
 ID = "C02"
@@ -9,17 +29,27 @@ THEOREMS = ["Hyp.Keyword." + t for t in (
     "c02_erase_step", "c02_erase_run", "c02_erase_view", "c02_representation_independent",
     "c02_index_entry", "c02_query_entry_partial", "c02_notall_object_is_all", "c02_notall_object_differs")]
 CASES = {"quick": 8000, "thorough": 150000}
-BUDGET_S = {"quick": 40, "thorough": 700}
-RULE = ("histories of 5-60 (thorough: up to 400) index/reindex/unindex/reset/optimize/set-threshold calls over "
-        "docids 0..15 plus extreme ids and 3-7 keywords (str or int, ranked for the model); a document's next "
-        "keyword list is derived from its current one (grow, shrink, replace, same, reordered, with duplicates, "
-        "empty), 12% withdrawn (discriminator default), 10% unindex (half unknown ids), 3% reset, 2% str value "
-        "(TypeError); tree_threshold from {1,2,3,5,64} set on the instance at the start and changed at random "
-        "points, optimize() at random points; after each op with prob. 1/4 and at the end Eq/NotEq/Any/NotAny/"
-        "All/NotAll via index.applyX and via index.X(..).execute() with present/absent/repeated keywords and "
-        "the empty list; both BTrees families; list and tuple values; attribute and callable discriminators; "
-        "occasionally the posting representations are compared too. non-trivial = the answers contain at "
-        "least one non-empty and three different id sets")
+BUDGET_S = {"quick": 34, "thorough": 660}
+RULE = ("small mode (84%): histories of 5-60 (thorough: up to 400) index_doc/reindex_doc/unindex_doc/reset/optimize/"
+        "set-threshold calls over docids 0..15 plus extreme ids and 3-7 keywords; a document's next keyword list "
+        "is derived from its current one (grow, shrink, replace, same, reordered, with duplicates, empty), 12% "
+        "withdrawn (discriminator default), 10% unindex (half unknown ids, sometimes twice), 3% reset, 2% str "
+        "value (TypeError); tree_threshold from {1,2,3,5,64} set on the instance (15%: class default) and changed "
+        "at random points, optimize() at random points. bulk-hot mode (12%): 70-400 documents (dense or strided "
+        "docid runs anywhere in the family's range, any order) carry 1-4 shared keywords so that one posting "
+        "holds 65-400 docids, 60% of them under the class default tree_threshold (others 64/100/32/200/5 on the "
+        "instance), 12% with 121-199 withdrawn documents, 45% with a drain that takes the big posting back to "
+        "58-66 docids (or to nothing) by unindex / withdrawal / empty list / re-index without the keyword, then a "
+        "small history on first/last/random bulk ids and fresh ids; bulk-wide mode (4%): 35-110 distinct keywords. "
+        "Keyword pools (ranked to Int for the model; each pool mutually orderable): str (incl. ''), int, tuples of "
+        "strings incl. () (iterable keywords), bytes incl. b'', num (1 == 1.0 == True etc. are ONE keyword whose "
+        "spellings take turns; huge, negative, +-inf), 120 ints / 120 strings. After each op with prob. 1/4 and at "
+        "the end Eq/NotEq/Any/NotAny/All/NotAll via index.applyX and via index.X(..).execute() with present/"
+        "absent/repeated keywords and the empty list; KeywordIndex.apply() itself with a list, a tuple, {'query': "
+        "..} with operator and/or/absent, a bare string; the enumeration tuple (sometimes twice in a row); both "
+        "BTrees families; list, tuple and set values; attribute and callable discriminators; occasionally the "
+        "posting representations are compared too. non-trivial = the answers contain at least one non-empty and "
+        "four different id sets")
 LEVEL_TEXT = ("Lean 4 refinement proof: for every history (any tree_threshold, optimize() anywhere) the model of "
               "KeywordIndex, with its posting representation erased, represents the history's document table "
               "(invariant by induction over operations); Eq/Any/All and the negations return exactly the "
@@ -32,23 +62,51 @@ LEVEL_NOTE = ("trusted: Lean kernel (propext, Quot.sound, Classical.choice), BTr
               "object is the listed finding D2 (the index entry point applyNotAll is proved at full strength)")
 TECHNIQUE = "Lean 4 refinement invariant by induction over operation histories + differential correspondence"
 
+c01 = importlib.import_module("props.c01")
+Alt = c01.Alt
+
 STR_POOL = ["", "a", "ab", "abc", "b", "é", "中", "A", "z", "a:b"]
 INT_POOL = [-7, 0, 1, 2, 3, 5, 8, 100, 2 ** 40, -2 ** 33]
+# keyword pools (the rank = position is what the model sees; within a pool everything is mutually orderable,
+# which is all the OOBTree / OOSet need).  Beyond str and int:
+#   tuple  keywords that are themselves iterable: tuples of strings (tag paths), the empty tuple
+#   bytes  byte strings (iterable, not str), incl. b''
+#   num    ints / floats / bools mixed: 1, 1.0 and True are ONE keyword, huge and negative numbers, +-inf
+#   wide / widestr   120 keywords: more keys than an OO bucket (30) holds
+TUPLE_POOL = [(), ("",), ("a",), ("a", ""), ("a", "b"), ("a", "b", "c"), ("b",), ("lang", "en"), ("lang", "fr"),
+              ("z",)]
+POOLS = {k: [e if isinstance(e, Alt) else Alt((e,)) for e in v] for k, v in (
+    ("str", STR_POOL), ("int", INT_POOL), ("tuple", TUPLE_POOL), ("bytes", c01.BYTES_POOL), ("num", c01.NUM_POOL),
+    ("wide", c01.WIDE_POOL), ("widestr", c01.WIDESTR_POOL))}
+VTYPES = ["str"] * 5 + ["int"] * 3 + ["tuple"] * 3 + ["bytes"] * 2 + ["num"] * 3 + ["wide"] * 2 + ["widestr"] * 2
 IDS64 = list(range(16)) + [2 ** 31 - 1, -2 ** 31, 2 ** 62, -2 ** 62]
 IDS32 = list(range(16)) + [2 ** 31 - 1, -2 ** 31]
 QOPS = ["eq", "noteq", "any", "notany", "all", "notall"]
 THRS = [1, 2, 3, 5, 64]
+BULK_THRS = [64, 64, 64, 100, 32, 200, 5]
+BULK_SHARE = 0.12
+
+
+def pool_of(vtype):
+    return POOLS[vtype or "str"]
+
+
+def rank_table(vtype):
+    return {repr(a): r for r, alts in enumerate(pool_of(vtype)) for a in alts}
 
 
 class Doc(object):
     pass
 
 
-def gen_query(rng, used, op=None, cur=None):
+def gen_query(rng, used, op=None, cur=None, npool=len(STR_POOL)):
     op = op or rng.choice(QOPS)
-    n = len(STR_POOL)
-    sets = [sorted(v) for v in (cur or {}).values() if v]
-    if sets and op not in ("eq", "noteq") and rng.random() < 0.35:
+    n = npool
+    sets = None
+    if cur and op not in ("eq", "noteq") and rng.random() < 0.35:
+        ds = sorted(cur)
+        sets = [sorted(cur[d]) for d in (ds if len(ds) < 40 else rng.sample(ds, 8)) if cur[d]]
+    if sets:
         # keywords of one document: 'all' answers are non-empty, 'any' hits several postings
         ks = rng.choice(sets)
         ks = rng.sample(ks, rng.randrange(1, len(ks) + 1))
@@ -69,6 +127,37 @@ def gen_query(rng, used, op=None, cur=None):
     return [op] + ks
 
 
+def gen_apply(rng, used, cur, npool, vtype):
+    """KeywordIndex.apply() called directly: list / tuple (= and), {'query': ..} with and without 'operator',
+    a bare string (= one keyword)"""
+    q = gen_query(rng, used, rng.choice(["eq", "any", "all", "all"]), cur, npool)
+    if q[0] == "eq":
+        return ["qa", "s" if vtype in ("str", "widestr") and rng.random() < 0.6 else "l", "eq", q[1]]
+    if q[0] == "any":
+        return ["qa", "do", "any"] + q[1:]
+    return ["qa", rng.choice(["l", "t", "d", "da"]), "all"] + q[1:]
+
+
+def gen_queries(rng, used, cur, npool, vtype, cmds, k):
+    for _ in range(k):
+        if rng.random() < 0.12:
+            cmds.append(gen_apply(rng, used, cur, npool, vtype))
+        else:
+            cmds.append([rng.choice(["q", "qx"])] + gen_query(rng, used, cur=cur, npool=npool))
+
+
+def battery(rng, used, cur, npool, vtype, cmds):
+    for op in QOPS:
+        q = gen_query(rng, used, op, cur=cur, npool=npool)
+        cmds.append(["q"] + q)
+        cmds.append(["qx"] + q)
+    cmds.append(["q", "all"])
+    cmds.append(["q", "notall"])
+    cmds.append(gen_apply(rng, used, cur, npool, vtype))
+    cmds.append(["obs"])
+    cmds.append(["tags"])
+
+
 def next_keywords(rng, used, cur):
     """the next keyword list of a document whose current keyword set is `cur`"""
     cur = list(cur)
@@ -76,7 +165,7 @@ def next_keywords(rng, used, cur):
     if not cur or r < 0.15:
         new = rng.sample(used, rng.randrange(1, min(len(used), 4) + 1))          # fresh / replaced
     elif r < 0.35:
-        new = cur + rng.sample(used, rng.randrange(1, 3))                           # grow
+        new = cur + rng.sample(used, rng.randrange(1, min(len(used), 2) + 1))       # grow
     elif r < 0.55:
         new = rng.sample(cur, rng.randrange(1, len(cur) + 1))                       # shrink (or same set)
     elif r < 0.65:
@@ -84,31 +173,30 @@ def next_keywords(rng, used, cur):
         rng.shuffle(new)
     elif r < 0.8:
         keep = rng.sample(cur, rng.randrange(0, len(cur)))                          # partly replaced
-        new = keep + rng.sample(used, rng.randrange(1, 3))
+        new = keep + rng.sample(used, rng.randrange(1, min(len(used), 2) + 1))
     else:
-        new = [k for k in used if k not in cur] or cur[:]                           # disjoint
+        new = [k for k in used if k not in cur][:6] or cur[:]                       # disjoint
     if rng.random() < 0.3:
         new = new + [rng.choice(new) for _ in range(rng.randrange(1, 3))]           # duplicates
         rng.shuffle(new)
     return new
 
 
-def gen_history(rng, tier, ids, nkw, maxlen):
-    used = sorted(rng.sample(range(len(STR_POOL)), nkw))
-    cmds = []
-    cur = {}
-    for _ in range(rng.randrange(5, maxlen)):
+def small_ops(rng, ids, used, npool, vtype, cmds, cur, nops, thrs=THRS, pq=0.25):
+    for _ in range(nops):
         r = rng.random()
         d = rng.choice(ids)
         if cur and rng.random() < 0.5:
-            d = rng.choice(sorted(cur))
+            d = rng.choice(sorted(cur)) if len(cur) < 40 else rng.choice(ids)
         if r < 0.03:
             cmds.append(["reset"])
-            cur = {}
+            cur.clear()
         elif r < 0.13:
             d2 = d if rng.random() < 0.5 else rng.choice(ids)
             cmds.append(["unindex", d2])
             cur.pop(d2, None)
+            if rng.random() < 0.15:
+                cmds.append(["unindex", d2])                                        # once more: now unknown
         elif r < 0.25:
             cmds.append([rng.choice(["index", "reindex"]), d, "none"])
             cur.pop(d, None)
@@ -120,38 +208,142 @@ def gen_history(rng, tier, ids, nkw, maxlen):
         elif r < 0.40:
             cmds.append(["optimize"])
         elif r < 0.46:
-            cmds.append(["setthr", rng.choice(THRS)])
+            cmds.append(["setthr", rng.choice(thrs)])
             if rng.random() < 0.5:
                 cmds.append(["optimize"])
         else:
             new = next_keywords(rng, used, sorted(cur.get(d, ())))
             cmds.append([rng.choice(["index", "index", "reindex"]), d] + new)
             cur[d] = set(new)
-        if rng.random() < 0.25:
-            for _ in range(rng.randrange(1, 4)):
-                cmds.append([rng.choice(["q", "qx"])] + gen_query(rng, used, cur=cur))
+        if rng.random() < pq:
+            gen_queries(rng, used, cur, npool, vtype, cmds, rng.randrange(1, 4))
         if rng.random() < 0.04:
             cmds.append(["tags"])
-    for op in QOPS:
-        q = gen_query(rng, used, op, cur=cur)
-        cmds.append(["q"] + q)
-        cmds.append(["qx"] + q)
-    cmds.append(["q", "all"])
-    cmds.append(["q", "notall"])
-    cmds.append(["tags"])
+        if rng.random() < 0.05:
+            cmds.append(["obs"])
+            if rng.random() < 0.3:
+                cmds.append(["obs"])
+
+
+def gen_history(rng, tier, ids, nkw, maxlen, npool=len(STR_POOL), vtype="str"):
+    used = sorted(rng.sample(range(npool), min(nkw, npool)))
+    cmds = []
+    cur = {}
+    small_ops(rng, ids, used, npool, vtype, cmds, cur, rng.randrange(5, maxlen))
+    battery(rng, used, cur, npool, vtype, cmds)
+    return cmds
+
+
+def gen_bulk(rng, tier, fam, vtype, kind):
+    """size-dependent behaviour.  `hot`: 70-400 documents carry 1-4 shared keywords, the largest posting holds at
+    least 65 docids (Set -> TreeSet at tree_threshold = 64 by default, > 120 ints per set bucket); `wide`: 35-110
+    distinct keywords (forward BTree beyond one bucket); optionally > 120 withdrawn documents; then a `drain` that
+    brings the largest posting back to 58..66 docids by unindex / withdrawal / empty list / re-index without the
+    keyword, an ordinary small history (with optimize and threshold changes) and the battery"""
+    npool = len(pool_of(vtype))
+    n = c01.bulk_sizes(rng, tier)
+    ids = c01.bulk_ids(rng, fam, n)
+    if kind == "wide":
+        used = sorted(rng.sample(range(npool), rng.randrange(35, min(npool, 110) + 1)))
+        hot = used[:1]
+        kws = [rng.sample(used, rng.choice([1, 1, 2, 3])) for _ in range(n)]
+    else:
+        nhot = rng.choice([1, 2, 2, 3, 4])
+        used = sorted(rng.sample(range(npool), min(npool, nhot + rng.randrange(0, 4))))
+        hot = rng.sample(used, min(nhot, len(used)))
+        s0 = rng.randrange(65, n + 1) if rng.random() < 0.7 else rng.randrange(65, min(n, 75) + 1)
+        kws = []
+        for i in range(n):
+            ks = [hot[0]] if i < s0 else []
+            ks += [h for h in hot[1:] if rng.random() < 0.5]
+            if rng.random() < 0.1:
+                ks.append(rng.choice(used))
+            if not ks:
+                ks = [rng.choice(hot[1:] or used)]
+            if rng.random() < 0.1:
+                ks.append(ks[0])
+            rng.shuffle(ks)
+            kws.append(ks)
+    nnone = rng.randrange(121, 200) if rng.random() < 0.12 and kind != "wide" else rng.choice([0, 0, 1, 5])
+    top = 2 ** 31 if fam == 32 else 2 ** 63
+    extra = [ids[-1] + 1 + i for i in range(nnone)] if ids[-1] + nnone < top else [ids[0] - 1 - i for i in range(nnone)]
+    pairs = list(zip(ids, kws)) + [(d, ["none"]) for d in extra]
+    order = rng.random()
+    if order < 0.5:
+        rng.shuffle(pairs)
+    elif order < 0.65:
+        pairs.reverse()
+    cmds = []
+    cur = {}
+    for d, ks in pairs:
+        cmds.append(["index", d] + ks)
+        if ks != ["none"]:
+            cur[d] = set(ks)
+    if rng.random() < 0.5:
+        gen_queries(rng, used, cur, npool, vtype, cmds, 3)
+    if rng.random() < 0.3:
+        cmds.append(["tags"])
+    if kind == "hot" and rng.random() < 0.45:
+        members = [d for d in cur if hot[0] in cur[d]]
+        rng.shuffle(members)
+        target = 0 if rng.random() < 0.2 else rng.randrange(58, 67)     # 0: the big posting goes away entirely
+        for d in members[target:]:
+            r = rng.random()
+            if r < 0.4:
+                cmds.append(["unindex", d])
+                cur.pop(d, None)
+            elif r < 0.55:
+                cmds.append(["index", d, "none"])
+                cur.pop(d, None)
+            elif r < 0.65:
+                cmds.append(["index", d])
+                cur.pop(d, None)
+            else:
+                ks = sorted(cur[d] - {hot[0]}) or [rng.choice([u for u in used if u != hot[0]] or [hot[0]])]
+                if ks == [hot[0]]:
+                    cmds.append(["unindex", d])
+                    cur.pop(d, None)
+                else:
+                    cmds.append([rng.choice(["index", "reindex"]), d] + ks)
+                    cur[d] = set(ks)
+        if rng.random() < 0.3:
+            cmds.append(["optimize"])
+        gen_queries(rng, used, cur, npool, vtype, cmds, 2)
+    fresh = [ids[-1] + 1000 + i for i in range(3)] if ids[-1] + 1003 < top else [ids[0] - 1000 - i for i in range(3)]
+    some = sorted(set([ids[0], ids[-1]] + rng.sample(ids, 8) + fresh))
+    small_ops(rng, some, used, npool, vtype, cmds, cur, rng.randrange(5, 30), thrs=BULK_THRS, pq=0.2)
+    battery(rng, used, cur, npool, vtype, cmds)
     return cmds
 
 
 def gen(rng, tier, idx):
     fam = rng.choice([32, 64])
+    vtype = rng.choice(VTYPES)
+    cfg = [["cfg", "family", fam], ["cfg", "vtype", vtype],
+           ["cfg", "disc", rng.choice(["attr", "callable"])], ["cfg", "opt", rng.randrange(2)]]
+    if rng.random() < (0.35 if vtype in ("wide", "widestr") else BULK_SHARE):
+        kind = "wide" if vtype in ("wide", "widestr") and rng.random() < 0.6 else "hot"
+        # the class default tree_threshold (no instance attribute) in 60% of the bulk cases
+        if rng.random() >= 0.6:
+            cfg.append(["cfg", "thr", rng.choice(BULK_THRS)])
+        return {"session": "keyword", "cfg": cfg + [["cfg", "mode", "bulk-" + kind]],
+                "cmds": gen_bulk(rng, tier, fam, vtype, kind)}
     ids = IDS32 if fam == 32 else IDS64
     if rng.random() < 0.6:
         ids = ids[:rng.randrange(3, 10)]
     maxlen = 60 if tier == "quick" or rng.random() < 0.9 else 400
-    cfg = [["cfg", "family", fam], ["cfg", "vtype", rng.choice(["int", "str"])],
-           ["cfg", "disc", rng.choice(["attr", "callable"])], ["cfg", "opt", rng.randrange(2)],
-           ["cfg", "thr", rng.choice(THRS)]]
-    return {"session": "keyword", "cfg": cfg, "cmds": gen_history(rng, tier, ids, rng.randrange(3, 8), maxlen)}
+    if rng.random() < 0.85:
+        cfg.append(["cfg", "thr", rng.choice(THRS)])
+    return {"session": "keyword", "cfg": cfg,
+            "cmds": gen_history(rng, tier, ids, rng.randrange(3, 8), maxlen, len(pool_of(vtype)), vtype)}
+
+
+def model_cmd(c):
+    """KeywordIndex.apply() forms named by what they mean: a list / tuple / {'query': ..} is All, operator 'or' is
+    Any, a bare string or a one-element list is Eq"""
+    if c[0] == "qa":
+        return ["q", c[2]] + list(c[3:])
+    return c
 
 
 def cfgdict(case):
@@ -162,8 +354,10 @@ class KeywordImpl(object):
     def __init__(self, hyp, cfg):
         import BTrees
         from hypatia.keyword import KeywordIndex
-        self.pool = STR_POOL if cfg.get("vtype", "str") == "str" else INT_POOL
-        self.rank = {repr(v): i for i, v in enumerate(self.pool)}
+        self.vtype = cfg.get("vtype", "str")
+        self.pool = pool_of(self.vtype)
+        self.rank = rank_table(self.vtype)
+        self.cfg = cfg
         self.fam = BTrees.family32 if cfg.get("family") == 32 else BTrees.family64
         if cfg.get("disc") == "callable":
             disc = lambda obj, default: getattr(obj, "x", default)  # noqa: E731
@@ -174,20 +368,27 @@ class KeywordImpl(object):
         if "thr" in cfg:
             self.idx.tree_threshold = int(cfg["thr"])
         self.n = 0
+        self.m = 0
+
+    def kw(self, r):
+        self.m += 1
+        alts = self.pool[r]
+        return alts[self.m % len(alts)]      # equal objects of different types (1, 1.0, True) take turns
 
     def doc(self, toks):
         o = Doc()
         self.n += 1
         if toks == ["none"]:
             return o
-        kws = [self.pool[r] for r in toks]
-        o.x = kws if self.n % 2 else tuple(kws)
+        kws = [self.kw(r) for r in toks]
+        # the value is a list, a tuple or (non-empty) a set of keywords
+        o.x = kws if self.n % 2 else set(kws) if kws and self.n % 6 == 0 else tuple(kws)
         return o
 
     def query(self, via_object, q):
         idx = self.idx
         op = q[0]
-        arg = self.pool[q[1]] if op in ("eq", "noteq") else [self.pool[c] for c in q[1:]]
+        arg = self.kw(q[1]) if op in ("eq", "noteq") else [self.kw(c) for c in q[1:]]
         if via_object:
             rs = getattr(idx, op)(arg).execute(optimize=self.opt)
             ids = list(rs.ids)
@@ -197,6 +398,22 @@ class KeywordImpl(object):
         name = {"eq": "applyEq", "noteq": "applyNotEq", "any": "applyAny", "notany": "applyNotAny",
                 "all": "applyAll", "notall": "applyNotAll"}[op]
         return idset(getattr(idx, name)(arg))
+
+    def apply_form(self, form, kind, args):
+        ks = [self.kw(a) for a in args]
+        if form == "s":
+            return self.idx.apply(ks[0])
+        if form == "l":
+            return self.idx.apply(ks)
+        if form == "t":
+            return self.idx.apply(tuple(ks))
+        if form == "d":
+            return self.idx.apply({"query": ks})
+        if form == "da":
+            return self.idx.apply({"query": ks, "operator": "and"})
+        if form == "do":
+            return self.idx.apply({"query": ks, "operator": "or"})
+        raise ValueError(form)
 
     def obs(self):
         idx = self.idx
@@ -209,6 +426,8 @@ class KeywordImpl(object):
         """posting representations; not part of the public API: skipped (None) when not available"""
         if getattr(self, "stale", False):
             return None
+        if "thr" not in self.cfg and not getattr(self, "thr_set", False) and self.idx.tree_threshold != 64:
+            return None         # class default in force and it is not the modelled 64: representation not compared
         try:
             items = list(self.idx._fwd_index.items())
             Set, TreeSet = self.fam.IF.Set, self.fam.IF.TreeSet
@@ -264,11 +483,14 @@ class KeywordImpl(object):
                 return "ok"
             if op == "setthr":
                 self.idx.tree_threshold = c[1]
+                self.thr_set = True
                 return "ok"
             if op == "q":
                 return self.query(False, c[1:])
             if op == "qx":
                 return self.query(True, c[1:])
+            if op == "qa":
+                return idset(self.apply_form(c[1], c[2], c[3:]))
             if op == "obs":
                 return self.obs()
             if op == "tags":
@@ -295,29 +517,41 @@ def neighbourhood(rng, case):
     """a representation-only divergence was found: look nearby for an input on which an answer differs
     (drop the representation probes, query every keyword and the known ids after every operation)"""
     cmds = []
+    ks = sorted({k for c in case["cmds"] if c[0] in ("index", "reindex") for k in c[2:] if k != "none"} | {0})[:12]
     for c in case["cmds"]:
         if c[0] == "tags":
             continue
         cmds.append(c)
-        if c[0] not in ("q", "qx"):
-            for k in range(len(STR_POOL)):
+        if c[0] not in ("q", "qx", "qa", "obs"):
+            for k in ks:
                 if rng.random() < 0.8:
                     cmds.append(["q", "eq", k])
             cmds.append(["q", "notall"])
-            cmds.append(["q", "noteq", rng.randrange(len(STR_POOL))])
+            cmds.append(["q", "noteq", rng.choice(ks)])
     return dict(case, cmds=cmds)
 
 
 def nontrivial(case, outs):
-    answers = {o for c, o in zip(case["cmds"], outs) if c[0] in ("q", "qx")}
+    answers = {o for c, o in zip(case["cmds"], outs) if c[0] in ("q", "qx", "qa")}
     return len(answers) >= 4 and any(o not in ("{}",) for o in answers)
 
 
 def features(case, outs):
     cfg = cfgdict(case)
-    f = ["family:%s" % cfg.get("family"), "vtype:%s" % cfg.get("vtype"), "thr0:%s" % cfg.get("thr")]
+    f = ["family:%s" % cfg.get("family"), "vtype:%s" % cfg.get("vtype"), "thr0:%s" % cfg.get("thr", "class-default"),
+         "mode:%s" % cfg.get("mode", "small")]
+    sf, mp = c01.size_features(case, lambda c: "none" if c[2:] == ["none"] else tuple(set(c[2:])) or None)
+    f += sf
+    if mp >= 65 and "thr" not in cfg:
+        f.append("posting>=65-under-default-threshold")
     cur = {}
+    prev_cmd = None
     for c, o in zip(case["cmds"], outs):
+        if c[0] == "qa":
+            f.append("apply:%s:%s:%s" % (c[1], c[2], "empty" if o == "{}" else "nonempty" if o.startswith("{") else o))
+        elif c[0] == "obs":
+            f.append("obs-twice" if prev_cmd == ["obs"] else "obs")
+        prev_cmd = c
         if c[0] in ("q", "qx"):
             shape = "" if c[1] in ("eq", "noteq") else ":n=%d%s" % (min(len(c) - 2, 3),
                                                                    "dup" if len(set(c[2:])) < len(c) - 2 else "")
@@ -342,6 +576,8 @@ def features(case, outs):
                     now += "+dup"
                 cur[c[1]] = new
             f.append("index:%s->%s" % ("kw" if isinstance(prev, set) else prev, now))
+            if c[0] == "reindex":
+                f.append("via-reindex_doc")
         elif c[0] == "unindex":
             f.append("unindex:%s" % ("known" if c[1] in cur else "unknown"))
             cur.pop(c[1], None)
